@@ -387,3 +387,42 @@ fn kx_mvec_freeze_spare_capacity_sym() {
     kani::cover!(g.off > 0 && g.len > 0);
     core::mem::forget(f);
 }
+
+// @ob props=C01,C03,C04 tier=quick kind=Kinf fns=BytesMut::unsplit
+#[kani::proof]
+fn kx_m_unsplit_into_empty_self() {
+    // self is empty: it simply BECOMES other (no copy); the old self is dropped, giving up its reference
+    let (base, vcap) = alloc_sym();
+    let k = any_count();
+    kani::assume(k >= 2);
+    let (shared, repr) = shared_on(base, vcap, k);
+    let (o1, c1) = (kani::any::<usize>(), kani::any::<usize>());
+    let (o2, c2, l2) = (kani::any::<usize>(), kani::any::<usize>(), kani::any::<usize>());
+    kani::assume(o1 <= vcap && c1 <= vcap - o1 && o2 <= vcap && c2 <= vcap - o2 && l2 <= c2);
+    kani::assume(o1 + c1 <= o2 || o2 + c2 <= o1);
+    let mut b = BytesMut { ptr: vptr(unsafe { base.add(o1) }), len: 0, cap: c1, data: shared };
+    let o = BytesMut { ptr: vptr(unsafe { base.add(o2) }), len: l2, cap: c2, data: shared };
+    let g = MGhost { base, vcap, off: o2, len: l2, cap: c2, repr, shared, k };
+    b.unsplit(o);
+    assert!(wf_marc(&b, &g, base as usize + o2, l2, c2));
+    assert!(count(&g) == k - 1 && block_intact(&g));
+    core::mem::forget(b);
+}
+
+// @ob props=C09,C01,C07,C03 tier=quick kind=Kinf fns=Buf_for_BytesMut::copy_to_bytes,BytesMut::split_to,BytesMut::freeze
+#[kani::proof]
+fn kx_bytes_mut_copy_to_bytes_is_split_to_freeze() {
+    let (mut b, g) = any_marc();
+    let (i, x) = plant_m(&b);
+    let n: usize = kani::any();
+    kani::assume(n <= g.len);
+    let p = g.base as usize + g.off;
+    let r = Buf::copy_to_bytes(&mut b, n);
+    // exactly the next n bytes, zero-copy; self advanced by n; one more reference on the block
+    assert!(r.len() == n && r.as_ptr() as usize == p && count(&g) == g.k + 1 && block_intact(&g));
+    assert!(wf_marc(&b, &g, p + n, g.len - n, g.cap - n));
+    if g.len > 0 { if i < n { assert!(r[i] == x); } else { assert!(b[i - n] == x); } }
+    kani::cover!(n > 0 && n < g.len);
+    core::mem::forget(r);
+    core::mem::forget(b);
+}
